@@ -70,7 +70,10 @@ def generate(prop, rng):
         "cfg": {"sqlite": rng.random() < 0.35, "reflink": "enotsup", "tick_ns": 1_000_000,
                 # cache + remote storage; part of the file objects were collected from the cache after its
                 # existence index had recorded them (the adaptor must serve them from the remote)
-                "split": rng.random() < 0.3, "split_seed": rng.randrange(10**6)},
+                "split": rng.random() < 0.3, "split_seed": rng.randrange(10**6),
+                # a workspace location registered as data storage where nothing has been checked out (yet):
+                # every load has to fall through to the cache
+                "data_absent": rng.random() < 0.3},
         "contents": [gen.enc(b) for b in pool], "dirobjs": dirobjs, "files": files, "ops": ops,
     }
 
@@ -200,6 +203,10 @@ def execute(sc, ctx):
             w.raw_add("remote-store", "local", doid, dbytes)
 
     def attach(idx):
+        if sc["cfg"].get("data_absent"):
+            from dvc_data.index import FileStorage
+
+            idx.storage_map.add_data(FileStorage((), w.localfs, w.p("never-checked-out")))
         if split:
             idx.storage_map.add_cache(ObjectStorage((), odb, index=cache_exist_index))
             idx.storage_map.add_remote(ObjectStorage((), odb_remote))
